@@ -5,11 +5,11 @@
 // @h c07_children_tuple tier=both bounded=tuple-of-2
 // @h c07_children_newtype tier=both
 // @h c07_children_struct tier=both bounded=2-properties
-// @h c07_children_enum_simple tier=both bounded=1-variant
-// @h c07_children_enum_item tier=both bounded=1-variant
-// @h c07_children_enum_tuple tier=both bounded=1-variant-of-2-children
-// @h c07_children_enum_struct tier=both bounded=1-variant-of-2-children
-// @h c07_children_enum_two_variants tier=thorough bounded=2-variants
+// @h c07_children_enum_simple tier=off bounded=1-variant
+// @h c07_children_enum_item tier=off bounded=1-variant
+// @h c07_children_enum_tuple tier=off bounded=1-variant-of-2-children
+// @h c07_children_enum_struct tier=off bounded=1-variant-of-2-children
+// @h c07_children_enum_two_variants tier=off bounded=2-variants
 // @h c07_children_box tier=both
 // @h c07_children_vec tier=both
 // @h c07_children_map tier=both
@@ -39,6 +39,10 @@
 //   F1  the slots alias the entry: writing a fresh identifier through every slot changes
 //       exactly the by-value children of the entry (that is how a back edge is re-pointed
 //       at its Box)
+//
+// NOT DECIDED: the Enum arm. `variants.iter_mut().flat_map(..).collect()` does not
+// terminate in CBMC within 15 minutes even for an enum of one variant (harnesses kept below
+// with `tier=off` for the record; they are run by neither tier).
 //
 // `by_value_children` below is the specification, written over shared references and
 // independently of the code. The entry's kind is concrete per harness, identifiers are
